@@ -1,4 +1,5 @@
 import MQ.Inv.RingMain
+import MQ.Inv.AddFrame
 /-!
 # C10 — add_stream starts at the parent position with no gap and no side effects
 -/
@@ -32,5 +33,34 @@ theorem C10_taint_iff (σ : St) (t inp c raw ng : Nat) (hpc : (σ.th t).pc = .a3
   simp only [stepRun, hpc, ↓reduceIte]
   repeat' split
   all_goals simp [St.goto, St.gotoF, St.setTh, St.flush, upd, h0]
+
+/-- C10 (no side effects, structural — for every state, reachable or not, and every interleaving): a step of a thread
+that is inside `add_stream` (publication loop `a1`–`a3`, then the release of the old stream list through the memory
+manager, up to the return of the new handle) stays inside that program, keeps the call's arguments, and leaves the
+queue's data alone: write index, tail cache, sender count, every slot's tag, content and pin counter, the log of
+sent values, the list of destroyed values, the no-reader flag, and — for every stream other than the new one — its
+position, delivery list, start marker and consumer count. Nothing is consumed, dropped or reordered by `add_stream`;
+the only data it writes are the new stream's own cells (`C10_start`). Proved by cases over all program points
+(`MQ/Inv/AddFrame.lean`). -/
+theorem C10_add_stream_frame (σ : St) (t inp : Nat) (ho : (σ.th t).outer = .addStream)
+    (ha : (σ.th t).pc.inAdd = true) :
+    let σ' := (stepRun σ t inp).2
+    ((σ'.th t).pc.inAdd = true ∧ (σ'.th t).outer = .addStream ∧ (σ'.th t).ns = (σ.th t).ns) ∧
+    σ'.head = σ.head ∧ σ'.tc = σ.tc ∧ σ'.writers = σ.writers ∧ σ'.tag = σ.tag ∧ σ'.cont = σ.cont ∧ σ'.ref = σ.ref ∧
+    σ'.log = σ.log ∧ σ'.drops = σ.drops ∧ σ'.noReader = σ.noReader ∧
+    (∀ s', s' ≠ (σ.th t).ns → σ'.pos s' = σ.pos s' ∧ σ'.dlv s' = σ.dlv s' ∧ σ'.start s' = σ.start s' ∧
+      σ'.ncons s' = σ.ncons s') := by
+  obtain ⟨h1, h2, h3⟩ := C10_add_stream_stays_in_its_program σ t inp ho ha
+  exact ⟨⟨h1, h2.trans ho, h3⟩, C10_add_stream_touches_no_data σ t inp ha⟩
+
+/-- non-vacuity: the dispatch of an `add_stream` call puts the thread at `a1`, which is inside the program -/
+example : (PC.a1).inAdd = true ∧ (PC.a3 1 0 2).inAdd = true ∧ (PC.ret .new).inAdd = true ∧ (PC.r0).inAdd = false := by
+  decide
+
+/-- a step never turns another call into an `add_stream` call (so the hypothesis `outer = addStream` above is set by
+the call's dispatch only) -/
+theorem C10_outer_only_from_dispatch (σ : St) (t inp : Nat)
+    (h : ((stepRun σ t inp).2.th t).outer = .addStream) : (σ.th t).outer = .addStream :=
+  outer_add_of_step σ t inp h
 
 end MQ
